@@ -6,7 +6,7 @@ from simlab import chain_evolve
 BASE = {
     "ttno": 2.0, "ttno_same": 1.0, "ttns_random": 3.0, "ttns_product": 0.6, "from_mps": 0.5,
     "add": 2.5, "scale": 1.2, "unary": 1.0, "apply": 2.5, "canonicalise": 1.2, "compress": 1.5,
-    "observe": 4.0, "evolve": 0.0, "evolve_order": 0.0, "lockstep": 0.0, "max_entangled": 0.4, "optimize": 0.0, "expand": 0.3, "normalize": 0.8, "dump_load": 0.4, "drop": 0.3,
+    "observe": 4.0, "evolve": 0.0, "lockstep": 0.0, "max_entangled": 0.4, "optimize": 0.0, "expand": 0.3, "normalize": 0.8, "dump_load": 0.4, "drop": 0.3,
 }
 
 TWEAKS = {
